@@ -355,6 +355,29 @@ def identity_pack(c):
     return False
 
 
+def ref_agrees(c, o, ref, u):
+    """cfdm's masked read against netCDF4-python's, up to the two documented deviations."""
+    if o is None or "err" in o:
+        return False
+    if same(o, ref):
+        return True
+    if o["shape"] != ref["shape"]:
+        return False
+    if o["dtype"] != ref["dtype"] and not (u == 1 and identity_pack(c)):
+        return False           # identity packing: the unpacked type is the attribute's type (CF 8.1)
+    cmp_values = o["dtype"] == ref["dtype"]
+    dv = u == 1 and default_fill_under_view(c)
+    dfl = DEFAULT_FILL[c["dt"]]
+    for x, y, raw in zip(o["flat"], ref["flat"], c["data"]):
+        if dv and x is None and raw == dfl:
+            continue
+        if (x is None) != (y is None):
+            return False
+        if cmp_values and x != y:
+            return False
+    return True
+
+
 def np_select(obs, idx):
     a = np.array(obs["flat"], dtype=object).reshape(obs["shape"])
     poss = []
@@ -509,14 +532,7 @@ def run(chk, model_ok):
             for b in ("netCDF4", "h5netcdf"):
                 o = cf.get(f"{b}|{m}|{u}", {}).get("whole")
                 stats["ref_compared"] += 1
-                ok = same(o, ref)
-                if not ok and u == 1 and default_fill_under_view(c) and o is not None and "err" not in o and \
-                        o["dtype"] == ref["dtype"] and len(o["flat"]) == len(ref["flat"]):
-                    dfl = DEFAULT_FILL[c["dt"]]
-                    ok = all(x == y or (x is None and raw == dfl) for x, y, raw in zip(o["flat"], ref["flat"], c["data"]))
-                if not ok and o is not None and "err" not in o and u == 1 and identity_pack(c) and \
-                        o["shape"] == ref["shape"] and o["flat"] == ref["flat"]:
-                    ok = True          # documented deviation: unpacked type is the attribute's type (CF 8.1)
+                ok = ref_agrees(c, o, ref, u)
                 if not ok:
                     sig = "read-differs-from-netCDF4-library"
                     if unsigned_on(c) and not isint(c["dt"]):
@@ -618,10 +634,18 @@ def run(chk, model_ok):
                         fail(c, "apply-masking-changed-original", f"{desc}: apply_masking() changed the field it was called on", None, None, key)
             # literals for the correspondence (netCDF4 backend; h5netcdf is tied to it by O2 and, for errors, below)
             if modelable(c) and (b == "netCDF4" or "err" in w):
-                lits_read.append(f"({c['dt'].upper()}, {g_case_attrs(c)}, {gbool(m)}, {gbool(u)}, {glist(c['data'], g_num)}, {g_obs(w)})")
+                wl = w
+                if "err" not in w and w["shape"] == [] and w["flat"] == [None]:
+                    w0 = cf.get(f"{b}|0|{int(u)}", {}).get("whole")
+                    if w0 is not None and "err" not in w0:
+                        wl = dict(w, dtype=w0["dtype"])     # the masked constant has no data type of its own
+                lits_read.append(f"({c['dt'].upper()}, {g_case_attrs(c)}, {gbool(m)}, {gbool(u)}, {glist(c['data'], g_num)}, {g_obs(wl)})")
                 map_read.append((c, key, w))
                 if not m and "applied" in o and not (u and packing(c)) and not str_attr(c):
-                    lits_app.append(f"({c['dt'].upper()}, {g_case_attrs(c)}, {gbool(u)}, {glist(c['data'], g_num)}, {g_obs(o['applied'])})")
+                    oa = o["applied"]
+                    if "err" not in oa and oa["shape"] == [] and oa["flat"] == [None]:
+                        oa = dict(oa, dtype=w["dtype"])
+                    lits_app.append(f"({c['dt'].upper()}, {g_case_attrs(c)}, {gbool(u)}, {glist(c['data'], g_num)}, {g_obs(oa)})")
                     map_app.append((c, key, o["applied"]))
     ncorr = 0
     if model_ok:
